@@ -68,4 +68,9 @@ CHECKS['C19'] = dict(
     note='The round trip of EVERY combination of flags of a bitmask enum is exercised by random combinations, not yet proved generically. Known finding F12 (RALLY_FLAGS ALT_FRAME=24). Trusted: Coq kernel, vm_compute, go/ast table translator, extraction, driver, harness.',
     technique='Coq proof (decimal round trip, association-map lemmas, vm_compute over regenerated enum tables) + extracted-model differential over all enum types')
 
+CHECKS['C10'] = dict(
+    text='Kernel-checked, for every reachable state of a labelled transition system of the node (node loop, provider hand-over, per channel the reader, runner and writer goroutines, the two-phase pushEvent, the application consumer, Write* callers, Close; one label = one atomic goroutine step or one channel rendezvous; ALL schedules and ALL input histories by induction over the label sequence): what the application received from a channel is, in order, a prefix of what that channel attempted to deliver; that sequence is open, then per read result in arrival order its events, then close (a function of the channel\'s own inputs); nothing is lost unless the node was closed; open comes first; close comes once and last. Tied to the real node by scenario runs (scripted transports, random chunking, consumer fast/slow/bursty, concurrent writers, Close racing with delivery) whose per-channel observations are compared with the prediction obtained from the frame-reader model.',
+    note='The LTS is hand-written from node.go / channel.go / channel_provider.go (goroutine program counters; Go channel and select semantics are modelled); the correspondence with the Go code is by scenario observation, not by differential execution of the LTS. Scheduler perturbation is search. Trusted: Coq kernel, extraction (reader model), driver, scenario harness.',
+    technique='Coq proof (inductive invariant over an LTS of the node, all schedules) + scenario correspondence against the real Node')
+
 NOT_APPLICABLE = [{'property_id': p, 'reason': PENDING} for p in ALL if p not in CHECKS]
